@@ -23,5 +23,5 @@ OnlyPipelineOrder ==
   /\ \A i \in used : \A j \in 1..(i - 1) : j \in used \/ Recorded[j] = "balance"
   /\ \A k \in 1..Len(order) : \E i \in used : Recorded[i] = order[k]
 CompletesOnlyWithAllStages ==
-  (s.stage = "reported") => \A j \in 1..N : j \in used \/ Recorded[j] = "balance"
+  (s.stage = "reported") => \A j \in 1..N : j \in used \/ Recorded[j] \in {"balance", "report"}
 =============================================================================
